@@ -66,6 +66,12 @@ func runC16(c *fw.Case) {
 	if withValidatorsType {
 		gts = append(gts, vesttypes.GenesisVestingType{Name: "Validators", LockupPeriod: 10, LockupPeriodUnit: "day", VestingPeriod: 20, VestingPeriodUnit: "day", Free: sdk.MustNewDecFromStr("0.05")})
 	}
+	if r.Intn(6) == 0 {
+		// the name of one of the vesting types the upgrade introduces is already in use
+		taken := []string{"VC round", "Early-bird round", "Public round", "Strategic reserve short term round", "Validator round"}[r.Intn(5)]
+		gts = append(gts, vesttypes.GenesisVestingType{Name: taken, LockupPeriod: 7, LockupPeriodUnit: "hour", VestingPeriod: 9, VestingPeriodUnit: "hour", Free: sdk.MustNewDecFromStr("0.5")})
+		c.Count("new_vesting_type_names_already_taken", 1)
+	}
 	typeNames := []string{"Advisors", "Other"}
 	mkPool := func(name, vt string, locked *big.Int) *vesttypes.VestingPool {
 		sent := new(big.Int).Rand(r, big.NewInt(1_000_000_000))
@@ -203,6 +209,13 @@ func runC16(c *fw.Case) {
 	mgen := minterGenesis(mc.Params, gen.Epoch)
 	n, err := chain.NewNode(chain.GenesisSpec{Time: gen.Epoch, Accounts: accs, Vesting: vg, Minter: mgen, Distributor: &disttypes.GenesisState{Params: disttypes.Params{SubDistributors: cloneSubs(sds)}}, OmitICA: true})
 	if err != nil {
+		if p := asPanic(err); p != nil {
+			// the staged genesis is consistent by construction (module account funded with exactly
+			// what the pools lock): the application has no reason to refuse it
+			c.ViolateD("C16/initchain-panic", map[string]string{"owners": fmt.Sprint(nOwners), "stack": short(p.Stack, 3000)}, "InitChain of a consistent genesis with %d pool owners panicked: %s", nOwners, short(p.Value, 300))
+			c.ViolateD("C05/initchain-panic", map[string]string{"owners": fmt.Sprint(nOwners), "stack": short(p.Stack, 3000)}, "InitChain of a consistent genesis with %d pool owners panicked: %s", nOwners, short(p.Value, 300))
+			return
+		}
 		c.Inconclusive("staging genesis: %v", err)
 		return
 	}
@@ -358,6 +371,10 @@ func runC16(c *fw.Case) {
 	if loc, lerr := time.LoadLocation(zone); lerr == nil {
 		time.Local = loc
 	}
+	typesBefore := map[string]string{}
+	for _, vt := range app.CfevestingKeeper.GetAllVestingTypes(ctx).VestingTypes {
+		typesBefore[vt.Name] = vt.String()
+	}
 	pUp := safeCall("ApplyUpgrade", func() { app.UpgradeKeeper.ApplyUpgrade(ctx, upgradetypes.Plan{Name: v120.UpgradeName, Height: 100}) })
 	time.Local = oldLocal
 	if p := pUp; p != nil {
@@ -463,6 +480,24 @@ func runC16(c *fw.Case) {
 		}
 		if splitApplied {
 			c.Count("splits_applied", 1)
+		}
+	}
+	if !splitApplied {
+		// "completely or not at all" covers the vesting types too: without the split the types
+		// are what they were (the upgrade renames and adds types only as part of the split)
+		typesAfter := map[string]string{}
+		for _, vt := range app.CfevestingKeeper.GetAllVestingTypes(ctx).VestingTypes {
+			typesAfter[vt.Name] = vt.String()
+		}
+		for name, before := range typesBefore {
+			if typesAfter[name] != before {
+				c.ViolateD("C16/split-partial-types", map[string]string{"before": before, "after": typesAfter[name]}, "the validators pool was not split, but vesting type %q was changed or removed by the upgrade", name)
+			}
+		}
+		for name := range typesAfter {
+			if _, had := typesBefore[name]; !had {
+				c.Violate("C16/split-partial-types", "the validators pool was not split, but the upgrade added vesting type %q", name)
+			}
 		}
 	}
 	// shifted accounts
